@@ -2,6 +2,7 @@ import PydapModel.Sexp
 import PydapModel.XdrTypes
 import PydapModel.XdrSpec
 import PydapModel.Xdr
+import PydapModel.XdrStream
 namespace Pydap.Driver
 open Pydap Sexp Pydap.Xdr
 
@@ -53,6 +54,34 @@ def handleXdr : List Sexp → Option String
   | [atom "xdr-dec", t, b] => do
     match decImpl (← xdrTmpl? t) (← asBytes? b) with
     | .ok (d, rest) => pure (toString (list [atom "ok", xdrDataSexp d, atom (bytesToHex rest)]))
+    | .error _ => pure "(err)"
+  | [atom "xdr-dec-e", t, b] => do
+    -- like xdr-dec, with the error class: short = the reader ran out of data
+    match decImpl (← xdrTmpl? t) (← asBytes? b) with
+    | .ok (d, rest) => pure (toString (list [atom "ok", xdrDataSexp d, atom (bytesToHex rest)]))
+    | .error .short => pure "(err short)"
+    | .error .fuel => pure "(err fuel)"
+    | .error .neglen => pure "(err neglen)"
+    | .error _ => pure "(err other)"
+  | [atom "xdr-decv", t, b] => do
+    match decImpl (← xdrTmpl? t) (← asBytes? b) with
+    | .ok (d, _) => pure (toString (list [atom "ok", xdrDataSexp d]))
+    | .error _ => pure "(err)"
+  | [atom "xdr-dec-sr", t, list cs] => do
+    -- unpack_dap2_data(StreamReader(iter(chunks)), dataset): value and everything the reader still holds
+    match decStream (← xdrTmpl? t) (← cs.mapM asBytes?) with
+    | .ok (d, r) => pure (toString (list [atom "ok", xdrDataSexp d, atom (bytesToHex r.abs)]))
+    | .error _ => pure "(err)"
+  | [atom "xdr-trace", t, b] => do
+    pure (" ".intercalate ((decTrace (← xdrTmpl? t) (← asBytes? b)).map toString))
+  | [atom "xdr-url", t, b] => do
+    match openDodsUrl (← xdrTmpl? t) (← asBytes? b) with
+    | some (_, .ok d) => pure (toString (list [atom "ok", xdrDataSexp d]))
+    | some (_, .error _) => pure "(err)"
+    | none => pure "none"
+  | [atom "xdr-seqproxy", t, list cs] => do
+    match seqProxy (← xdrTmpl? t) (← cs.mapM asBytes?) with
+    | .ok d => pure (toString (list [atom "ok", xdrDataSexp d]))
     | .error _ => pure "(err)"
   | [atom "xdr-size", t, n] => do
     let t ← xdrTmpl? t
